@@ -213,6 +213,8 @@ func classify(msg string) string {
 		return "utf8"
 	case has("invalid character NULL"):
 		return "nul"
+	case has("invalid character"):
+		return "invalid_char"
 	case has("underscore disallowed at start"):
 		return "num_underscore_start"
 	case has("trailing junk after numeric literal"):
